@@ -782,6 +782,118 @@ theorem danglingLoopReference_rejected (tbl sch) (p : Package) (hf : danglingLoo
     rewriteRef l 0 r, ?_, hn⟩ (validateP_nil h).2
   exact List.mem_map.mpr ⟨r, hr, rfl⟩
 
+/-! ### references to the importing (`$import`) entry
+
+The entry of the main document that instantiates a DoWhile document (`name: refine, $import: dowhile.yaml`) is
+not a component: the loaded document has the looped components (`stage1.0#work`) and their placeholders
+(`stage1.work`) instead.  "Consume the output of the loop" written as a reference to the entry is a dangling
+reference. -/
+
+/-- a component of the loaded document (a component of the main document, or iteration 0 of a looped component with
+its references rewritten: an input binding replaced by its value) declares a reference to an importing entry whose
+identifier no component or placeholder of the main document and no looped component shares -/
+def referenceToImportEntry (p : Package) : Prop :=
+  ∃ c ∈ (flatten p).comps, ∃ r ∈ c.refs, r ∈ stubIds p ∧ afterHash r.2 = none ∧ r ∉ ids p.main ∧
+    r ∉ placeholders p.main ∧ ∀ l ∈ p.loops, r ∉ tmplIds l
+
+/-- **referenceToImportEntry_rejected** (full): for every package, a reference to an importing entry — from a
+component of the main document, or from a looped component directly or through an input binding bound to the
+entry — is reported when the package is loaded. -/
+theorem referenceToImportEntry_rejected (tbl sch) (p : Package) (hf : referenceToImportEntry p) :
+    validateP tbl sch p ≠ [] := by
+  intro h
+  obtain ⟨c, hc, r, hr, _, hn, hm, hph, ht⟩ := hf
+  exact dangling_rejected tbl sch (flatten p) ⟨c, hc, r, hr, entry_not_resolved hn hm hph ht⟩ (validateP_nil h).2
+
+/-- **accepted_references_are_graph_nodes** (full): every reference of every component of an accepted package
+names a component of the main document, iteration 0 of a looped component, a placeholder of the main document or
+(the placeholder of) a looped component — being the name of an importing entry is never enough. -/
+theorem accepted_references_are_graph_nodes (tbl sch) (p : Package) (h : validateP tbl sch p = []) :
+    ∀ c ∈ (flatten p).comps, ∀ r ∈ c.refs,
+      r ∈ ids p.main ∨ (∃ l ∈ p.loops, ∃ j ∈ tmplIds l, r = (j.1, iterName 0 j.2)) ∨
+      r ∈ placeholders p.main ∨ ∃ l ∈ p.loops, r ∈ tmplIds l := by
+  intro c hc r hr
+  rcases (accepted_is_usable tbl sch (flatten p) (validateP_nil h).2).2.1 c hc r hr with h1 | h1
+  · rcases mem_ids_flatten h1 with h2 | h2
+    · exact .inl h2
+    · exact .inr (.inl h2)
+  · rcases mem_placeholders_flatten h1 with h2 | h2
+    · exact .inr (.inr (.inl h2))
+    · exact .inr (.inr (.inr h2))
+
+/-- the loop bindings and the condition can never name an importing entry that is no looped component (corollary
+of `acceptedP_is_usable`; stated for the fault "the condition / a loop binding is renamed to the entry") -/
+theorem conditionToImportEntry_rejected (tbl sch) (p : Package)
+    (hf : ∃ l ∈ p.loops, offset l l.cond ∈ stubIds p ∧ offset l l.cond ∉ tmplIds l) : validateP tbl sch p ≠ [] := by
+  obtain ⟨l, hl, _, hn⟩ := hf
+  exact danglingCondition_rejected tbl sch p ⟨l, hl, hn⟩
+
+theorem loopBindingToImportEntry_rejected (tbl sch) (p : Package)
+    (hf : ∃ l ∈ p.loops, ∃ kv ∈ l.loopBindings, offset l kv.2 ∈ stubIds p ∧ offset l kv.2 ∉ tmplIds l) :
+    validateP tbl sch p ≠ [] := by
+  obtain ⟨l, hl, kv, hkv, _, hn⟩ := hf
+  exact danglingLoopBinding_rejected tbl sch p ⟨l, hl, kv, hkv, hn⟩
+
+/-! ### the bindings when the next iteration is instantiated
+
+The code as it is compares the binding values with different sets at load time (importing entries included) and at
+run time (`instantiate_dowhile_next_iteration`: components of the graph only).  Partial: under the decidable
+hypothesis that no binding value of the loop names an importing entry or a placeholder, the binding check of every
+later iteration passes for an accepted package.  `Witness.C11`: without the hypothesis it does not (known finding
+C11-binding-to-import-entry); with the repaired load-time check (`validatePFixed`) such a package is rejected. -/
+
+theorem ids_main_sub_flatten (p : Package) {i : Id} (h : i ∈ ids p.main) : i ∈ ids (flatten p) := by
+  unfold ids flatten at *
+  simp only [List.map_append]
+  exact List.mem_append_left _ h
+
+theorem next_iteration_bindings_known_partial (tbl : List (S × Conv)) (sch : Schema) (p : Package)
+    (h : validateP tbl sch p = []) (l : Loop) (hl : l ∈ p.loops) (hb : bindingsAvoidImportEntries p l = true)
+    (k : Nat) : nextBindingErrors p l k = [] := by
+  unfold nextBindingErrors
+  rw [List.map_eq_nil_iff, List.filter_eq_nil_iff]
+  intro kv hkv
+  have h1 := ((acceptedP_is_usable tbl sch p h).2 l hl).2.2.1 kv hkv
+  unfold bindingsAvoidImportEntries at hb
+  rw [List.all_eq_true] at hb
+  have h2 := hb kv hkv
+  rw [Bool.and_eq_true] at h2
+  obtain ⟨h2a, h2b⟩ := h2
+  have h3 : kv.2 ∉ stubIds p := by intro hm; simp [hm] at h2a
+  have h4 : kv.2 ∉ p.loops.flatMap tmplIds := by intro hm; simp only [List.contains_eq_mem, hm] at h2b; simp at h2b
+  have h5 : kv.2 ∈ ids p.main := by
+    rcases h1 with h1 | ⟨l', hl', h1⟩
+    · rcases List.mem_append.mp h1 with h1 | h1
+      · exact h1
+      · exact absurd h1 h3
+    · exact absurd (List.mem_flatMap.mpr ⟨l', hl', h1⟩) h4
+  have h6 := ids_flatten_sub_unrolled p l k (ids_main_sub_flatten p h5)
+  simp [h6]
+
+/-- the hypothesis is satisfiable (every generated well-formed package satisfies it) -/
+example : bindingsAvoidImportEntries
+    { main := { comps := [], globals := [] },
+      loops := [{ stage := 1, name := "loop0".toList, inputs := ["in0".toList],
+                  bindings := [("in0".toList, (0, "ca".toList))], loopBindings := [], cond := (0, "la".toList),
+                  comps := [] }] }
+    { stage := 1, name := "loop0".toList, inputs := ["in0".toList],
+      bindings := [("in0".toList, (0, "ca".toList))], loopBindings := [], cond := (0, "la".toList), comps := [] }
+    = true := by decide
+
+/-- **fixed_rejects_binding_to_nothing** (full, for the repaired load-time check): a binding value that is neither a
+component of the main document nor a looped component — in particular an importing entry — is reported. -/
+theorem fixed_rejects_binding_to_nothing (tbl sch) (p : Package)
+    (hf : ∃ l ∈ p.loops, ∃ kv ∈ l.bindings, kv.2 ∉ ids p.main ∧ ∀ l' ∈ p.loops, kv.2 ∉ tmplIds l') :
+    validatePFixed tbl sch p ≠ [] := by
+  intro h
+  unfold validatePFixed at h
+  rw [List.append_eq_nil_iff] at h
+  obtain ⟨l, hl, kv, hkv, hn1, hn2⟩ := hf
+  obtain ⟨foreign, hok, hsub⟩ := loopErrorsFrom_nil h.1 l hl
+  rcases hsub _ (hok.bindings kv hkv) with h1 | ⟨l', hl', h1⟩
+  · exact hn1 h1
+  · exact hn2 l' hl' h1
+
 /-! ## Pin theorems on the constants regenerated from the source (`Gen/C11.lean`) -/
 
 /-- Every option key of the schema in the source, misspelled (one letter appended) in an otherwise empty
@@ -1069,5 +1181,21 @@ example : danglingCondition { goodLoop with loops := goodLoop.loops.map (fun l =
 example : (validateP Gen.C11.convTable Gen.C11.componentSchema
     { goodLoop with loops := goodLoop.loops.map (fun l =>
         { l with comps := l.comps ++ [tc 1 "extra" [(0, "ghost".toList)] []] }) }).isEmpty = false := by decide +kernel
+
+/-! ### the importing entry as the target of a reference -/
+
+/-- `report` written as "consume the loop": it references the entry `stage1.looper` instead of a looped component -/
+private def entryRef : Package :=
+  { goodLoop with main := { goodLoop.main with comps :=
+      [c 0 "dummy" [] [] [], c 3 "report" [(1, "looper".toList)] [] []] } }
+
+example : referenceToImportEntry entryRef :=
+  ⟨_, .tail _ (.head _), _, .head _, by decide +kernel⟩
+example : validateP Gen.C11.convTable Gen.C11.componentSchema entryRef
+    = [.doc (.unknownReference (3, "report".toList) (1, "looper".toList))] := by decide +kernel
+/-- the input binding `number` bound to the entry itself: `0#add` reads it, the reference is reported -/
+example : (validateP Gen.C11.convTable Gen.C11.componentSchema
+    { goodLoop with loops := goodLoop.loops.map (fun l =>
+        { l with bindings := [("number".toList, (1, "looper".toList))] }) }).isEmpty = false := by decide +kernel
 
 end St4sd.C11
